@@ -427,6 +427,15 @@ func (rn *runner) runOnce(st *site) (res siteResult, lr *learned, fatal error) {
 			in.plan.ResetLog()
 			phase = "faulted"
 			faultedOp = o.String()
+			// refs the faulted remove names that are certain-present before it (acked-remove oracle below)
+			var certainBefore []sto.Blob
+			if o.Kind == "remove" {
+				for _, b := range blobsOf(o) {
+					if _, p := c.Present[b.Ref]; p && !c.Uncertain[b.Ref] {
+						certainBefore = append(certainBefore, b)
+					}
+				}
+			}
 			completed, err := exec(o, true)
 			if !c.Dead {
 				waitQuiet()
@@ -484,6 +493,9 @@ func (rn *runner) runOnce(st *site) (res siteResult, lr *learned, fatal error) {
 			buf = nil
 			phase = "after"
 			cause = o.Kind + "@" + cause
+			if o.Kind == "remove" && completed && err == nil && len(res.delivered) > 0 && !c.Dead && in.caps.Remove && !in.caps.RemoveMixed {
+				rn.ackedRemoveProbe(c, certainBefore, &res, cause, violate)
+			}
 			if o.Kind == "reopen" && completed && err != nil && !c.Dead {
 				// the failed (re)construction is retried once failures have stopped
 				exec(o, false)
